@@ -155,3 +155,32 @@ void h_parse_option_string(void) {
   VF_WITNESS();
 #endif
 }
+
+/* ---- wildcard option names: key matches head*tail of one of the option's names; the '*' body is what lies between ---- */
+#ifndef KEYLEN
+#define KEYLEN 5
+#endif
+#ifndef WCSET
+#define WCSET 0
+#endif
+static int pre_(const char *k, u32 n, const char *h) { u32 i = 0; for (; i < 8; i++) { if (!h[i]) return 1; if (i >= n || k[i] != h[i]) return 0; } return 1; }
+static u32 len_(const char *t) { u32 i = 0; for (; i < 8; i++) if (!t[i]) break; return i; }
+static int suf_(const char *k, u32 n, const char *t) { u32 l = len_(t); if (l > n) return 0; for (u32 i = 0; i < 8; i++) { if (i >= l) break; if (k[n - l + i] != t[i]) return 0; } return 1; }
+void h_wc_match(void) {
+  /* enumerated option name sets (head, tail pairs; concrete) x every key of the given length (symbolic bytes) */
+  static const char *H0[] = {"acc:", "a", "alg:"}, *T0[] = {"", "b", ":x"}, *H1[] = {0, "lo:", "tech:"}, *T1[] = {0, "", ":yz"};
+  const char *h0 = H0[WCSET], *t0 = T0[WCSET], *h1 = H1[WCSET], *t1 = T1[WCSET];
+  char *key = vf_malloc(KEYLEN + 1); for (u32 i = 0; i < KEYLEN; i++) { key[i] = (char)vf_nd8(); VF_REQUIRE(key[i] != 0); } key[KEYLEN] = 0;
+  char body[16]; u64 bl = 99;
+  u32 rc = w_wc_match((char *)h0, (char *)t0, (char *)h1, (char *)t1, key, KEYLEN, body, 16, (char *)&bl);
+  VF_OBS(rc); VF_OBS(bl);
+  VF_ASSERT(rc <= 1, "no exception");
+  /* reference: first name whose head is a prefix and whose tail is a suffix of the key, the key being longer than the tail */
+  int m0 = pre_(key, KEYLEN, h0) && KEYLEN > len_(t0) && suf_(key, KEYLEN, t0);
+  int m1 = h1 && pre_(key, KEYLEN, h1) && KEYLEN > len_(t1) && suf_(key, KEYLEN, t1);
+  VF_ASSERT((rc == 1) == (m0 || m1), "wildcard option matches iff the key starts with a name's head and ends with its tail");
+  if (rc == 1) { const char *h = m0 ? h0 : h1, *t = m0 ? t0 : t1; u32 hl = len_(h), tl = len_(t);
+    if (hl + tl <= KEYLEN) { VF_ASSERT(bl == KEYLEN - hl - tl, "the '*' body is the part of the key between head and tail of the MATCHING name");
+      if (bl == KEYLEN - hl - tl) for (u32 i = 0; i < KEYLEN; i++) { if (i >= bl) break; VF_ASSERT(body[i] == key[hl + i], "body bytes"); } } }
+  VF_WITNESS();
+}
